@@ -788,4 +788,12 @@ def R8_configured_names(ctx):
     ctx.check(ok_val, "config:feature=value-under-that-key", "the declaration of a configured feature is not decoded from the value stored under its own key", c.where(), detail="(.., from_value(value_i))")
 
 
-RULES = [R1_slot_table, R2_growth, R3_dense_index, R4_state_model, R5_overrides, R6_units, R7_overrides_through_extend, R8_configured_names]
+def R9_conversion_tables(ctx):
+    """"round-trips its value through unit conversion": get converts feature unit -> caller unit, set converts back; the pair is
+    the identity only if the tables are mutually inverse (shared with C09.R1/R2; round 7: one constant used for both directions of
+    gasoline <-> diesel)"""
+    from props.C09 import R1_R2_tables
+    R1_R2_tables(ctx)
+
+
+RULES = [R1_slot_table, R2_growth, R3_dense_index, R4_state_model, R5_overrides, R6_units, R7_overrides_through_extend, R8_configured_names, R9_conversion_tables]
